@@ -169,9 +169,9 @@ Props/C06.vos Props/C06.vok Props/C06.required_vos: Props/C06.v Model/Conc.vos P
 Props/C05.vo Props/C05.glob Props/C05.v.beautified Props/C05.required_vo: Props/C05.v Base/Prelude.vo Base/Wrap.vo Model/Hash.vo Model/Strategy.vo Proofs/StrategyProofs.vo Proofs/WrrBoundProofs.vo Gen/StrategyGen.vo Proofs/StrategyRefine.vo
 Props/C05.vio: Props/C05.v Base/Prelude.vio Base/Wrap.vio Model/Hash.vio Model/Strategy.vio Proofs/StrategyProofs.vio Proofs/WrrBoundProofs.vio Gen/StrategyGen.vio Proofs/StrategyRefine.vio
 Props/C05.vos Props/C05.vok Props/C05.required_vos: Props/C05.v Base/Prelude.vos Base/Wrap.vos Model/Hash.vos Model/Strategy.vos Proofs/StrategyProofs.vos Proofs/WrrBoundProofs.vos Gen/StrategyGen.vos Proofs/StrategyRefine.vos
-Props/C13.vo Props/C13.glob Props/C13.v.beautified Props/C13.required_vo: Props/C13.v Base/Prelude.vo Model/Strategy.vo Model/LB.vo Proofs/LBProofs.vo Proofs/AccountingProofs.vo
-Props/C13.vio: Props/C13.v Base/Prelude.vio Model/Strategy.vio Model/LB.vio Proofs/LBProofs.vio Proofs/AccountingProofs.vio
-Props/C13.vos Props/C13.vok Props/C13.required_vos: Props/C13.v Base/Prelude.vos Model/Strategy.vos Model/LB.vos Proofs/LBProofs.vos Proofs/AccountingProofs.vos
+Props/C13.vo Props/C13.glob Props/C13.v.beautified Props/C13.required_vo: Props/C13.v Base/Prelude.vo Model/Strategy.vo Model/LB.vo Proofs/LBProofs.vo Proofs/AccountingProofs.vo Gen/BackendGen.vo Proofs/BackendRefine.vo
+Props/C13.vio: Props/C13.v Base/Prelude.vio Model/Strategy.vio Model/LB.vio Proofs/LBProofs.vio Proofs/AccountingProofs.vio Gen/BackendGen.vio Proofs/BackendRefine.vio
+Props/C13.vos Props/C13.vok Props/C13.required_vos: Props/C13.v Base/Prelude.vos Model/Strategy.vos Model/LB.vos Proofs/LBProofs.vos Proofs/AccountingProofs.vos Gen/BackendGen.vos Proofs/BackendRefine.vos
 Props/C11.vo Props/C11.glob Props/C11.v.beautified Props/C11.required_vo: Props/C11.v Base/Prelude.vo Model/Strategy.vo Model/LB.vo Proofs/LBProofs.vo Model/Conc.vo Proofs/ConcProofs.vo Proofs/ListingProofs.vo
 Props/C11.vio: Props/C11.v Base/Prelude.vio Model/Strategy.vio Model/LB.vio Proofs/LBProofs.vio Model/Conc.vio Proofs/ConcProofs.vio Proofs/ListingProofs.vio
 Props/C11.vos Props/C11.vok Props/C11.required_vos: Props/C11.v Base/Prelude.vos Model/Strategy.vos Model/LB.vos Proofs/LBProofs.vos Model/Conc.vos Proofs/ConcProofs.vos Proofs/ListingProofs.vos
@@ -262,3 +262,9 @@ Gen/StrategyGen.vos Gen/StrategyGen.vok Gen/StrategyGen.required_vos: Gen/Strate
 Proofs/StrategyRefine.vo Proofs/StrategyRefine.glob Proofs/StrategyRefine.v.beautified Proofs/StrategyRefine.required_vo: Proofs/StrategyRefine.v Base/Prelude.vo Base/Wrap.vo Model/Hash.vo Model/Strategy.vo Proofs/StrategyProofs.vo Gen/StrategyGen.vo
 Proofs/StrategyRefine.vio: Proofs/StrategyRefine.v Base/Prelude.vio Base/Wrap.vio Model/Hash.vio Model/Strategy.vio Proofs/StrategyProofs.vio Gen/StrategyGen.vio
 Proofs/StrategyRefine.vos Proofs/StrategyRefine.vok Proofs/StrategyRefine.required_vos: Proofs/StrategyRefine.v Base/Prelude.vos Base/Wrap.vos Model/Hash.vos Model/Strategy.vos Proofs/StrategyProofs.vos Gen/StrategyGen.vos
+Gen/BackendGen.vo Gen/BackendGen.glob Gen/BackendGen.v.beautified Gen/BackendGen.required_vo: Gen/BackendGen.v Base/Prelude.vo
+Gen/BackendGen.vio: Gen/BackendGen.v Base/Prelude.vio
+Gen/BackendGen.vos Gen/BackendGen.vok Gen/BackendGen.required_vos: Gen/BackendGen.v Base/Prelude.vos
+Proofs/BackendRefine.vo Proofs/BackendRefine.glob Proofs/BackendRefine.v.beautified Proofs/BackendRefine.required_vo: Proofs/BackendRefine.v Base/Prelude.vo Base/Wrap.vo Model/Hash.vo Model/Strategy.vo Gen/BackendGen.vo
+Proofs/BackendRefine.vio: Proofs/BackendRefine.v Base/Prelude.vio Base/Wrap.vio Model/Hash.vio Model/Strategy.vio Gen/BackendGen.vio
+Proofs/BackendRefine.vos Proofs/BackendRefine.vok Proofs/BackendRefine.required_vos: Proofs/BackendRefine.v Base/Prelude.vos Base/Wrap.vos Model/Hash.vos Model/Strategy.vos Gen/BackendGen.vos
